@@ -39,7 +39,7 @@ ASSUMPTIONS = [
     "TableReader files are well-formed numeric rows (two or more columns); malformed rows are outside the statement",
 ]
 REQUIRED = {"stratum:table": 60, "stratum:reader": 60, "stratum:plot": 40, "reader:no_final_newline": 15,
-            "reader:unsorted": 15, "reader:comments": 15, "table:xy": 15, "table:x_y": 15, "table:potable": 20}
+            "reader:unsorted": 15, "reader:x_scaled": 20, "reader:inside_node_inside": 10, "reader:comments": 15, "table:xy": 15, "table:x_y": 15, "table:potable": 20}
 
 
 @st.composite
@@ -54,6 +54,12 @@ def _table_case(draw, maxpts):
 def _reader_case(draw):
     n = draw(st.integers(2, 25))
     xs = draw(st.lists(gen.fl(-5.0, 40.0), min_size=n, max_size=n, unique=True))
+    # the x axis in other units (metres instead of Angstrom, ...): the same table, every x times a power of ten
+    xexp = draw(st.sampled_from([0, 0, 0, -10, -12, -3, 6]))
+    if xexp:
+        xs = [x * 10.0 ** xexp for x in xs]
+        if len(set(xs)) != len(xs):
+            xexp, xs = 0, draw(st.lists(gen.fl(-5.0, 40.0), min_size=n, max_size=n, unique=True))
     ys = draw(st.lists(gen.number(-100, 100), min_size=n, max_size=n))
     rows = list(zip(xs, ys))
     feats = draw(st.lists(st.sampled_from(["comments", "blank", "tabs", "unsorted", "extra_column", "no_final_newline",
@@ -63,7 +69,11 @@ def _reader_case(draw):
     else:
         rows.sort()
     return {"kind": "reader", "rows": [list(r) for r in rows], "features": sorted(feats),
-            "queries": draw(st.lists(gen.fl(-7.0, 42.0), min_size=3, max_size=8)),
+            "queries": [q * 10.0 ** xexp for q in draw(st.lists(gen.fl(-7.0, 42.0), min_size=3, max_size=8))],
+            "xexp": xexp,
+            # look-ups on ONE reader in this order: [interval, position in it] with 0 and 1 the tabulated ends
+            "sequence": draw(st.lists(st.tuples(st.integers(0, max(0, n - 2)), st.sampled_from([0.0, 0.0, 1.0, 0.3, 0.5, 0.75])).map(list),
+                                      min_size=3, max_size=10)),
             "noise_at": draw(st.lists(st.integers(0, 30), min_size=0, max_size=4))}
 
 
@@ -196,6 +206,25 @@ def _check_reader(case):
     except Exception as e:
         return {"v": [("reader:exception:%s@%s" % (type(e).__name__, libroute.innermost_atsim_frame(e)), "%r\n%r" % (e, text))],
                 "cls": cls, "nt": False}
+    scale = 10.0 ** case.get("xexp", 0)
+    if case.get("xexp"):
+        cls.append("reader:x_scaled")
+    kinds = []
+    for i, f in case.get("sequence", []):
+        (x0, y0), (x1, y1) = rows[i], rows[i + 1]
+        q = x0 if f == 0.0 else x1 if f == 1.0 else x0 + f * (x1 - x0)
+        if not (x0 <= q <= x1) or (f not in (0.0, 1.0) and not (x0 < q < x1)):
+            continue
+        got = tr(q)
+        kinds.append("node" if f in (0.0, 1.0) else "inside")
+        want = y0 if q == x0 else y1 if q == x1 else y0 + (y1 - y0) * (q - x0) / (x1 - x0)
+        tol = 0.0 if f in (0.0, 1.0) else 1e-9 * max(1.0, abs(y0), abs(y1)) * max(1.0, (abs(x0) + abs(x1)) / (x1 - x0))
+        if not abs(got - want) <= tol:
+            v.append(("reader:sequence", "look-up number %d of the sequence %r on one reader: reader(%r) = %r, expected %r "
+                      "(interval (%r, %r)..(%r, %r))\n%r" % (len(kinds), case["sequence"], q, got, want, x0, y0, x1, y1, text)))
+            break
+    if any(a == "inside" and b == "node" and c == "inside" for a, b, c in zip(kinds, kinds[1:], kinds[2:])):
+        cls.append("reader:inside_node_inside")
     for x, y in rows:
         got = tr(x)
         if got != y:
@@ -213,7 +242,7 @@ def _check_reader(case):
                 q, got, x0, y0, x1, y1, want, text)))
             break
     lo, hi = rows[0][0], rows[-1][0]
-    for q in [lo - 1e-6, lo - 3.0, hi + 1e-6, hi + 3.0] + [q for q in case["queries"] if q < lo or q > hi]:
+    for q in [lo - 1e-6 * scale, lo - 3.0 * scale, hi + 1e-6 * scale, hi + 3.0 * scale] + [q for q in case["queries"] if q < lo or q > hi]:
         got = tr(q)
         if got != 0.0:
             v.append(("reader:outside", "reader(%r) = %r outside [%r, %r]\n%r" % (q, got, lo, hi, text)))
